@@ -4,7 +4,7 @@
    throwing actions, match-level actions, controls with/without unwind, raising failure hooks), every
    dyn d (apply mode, rewind mode, action family, control family), every fuel, cursor and input.
    Specification side: ActionSpec.v (quiet, the protocol machine arun, survivors, PegA / peg_acts). *)
-From PegtlV Require Import Base Decode Grammar Engine Spec Denote ActionSpec ActionFacts.
+From PegtlV Require Import Base Decode Grammar Engine EngineFacts AtomFacts Spec Denote ExactSound ActionSpec ActionFacts ActionExact.
 
 (* ---------- 1. no action while actions are disabled ---------- *)
 (* apply_mode::nothing and no enable<> / enable_action anywhere: not a single apply / apply0 / inline action *)
@@ -33,6 +33,27 @@ Proof.
   - eapply K; [|exact H]. apply (eval_quiet G C Hno f (set_A d false) r1 c).
 Qed.
 Print Assumptions C04_lookahead_quiet.
+
+(* and the sub-rule of at<> / not_at<> / disable<> is ENTERED with apply_mode::nothing, whatever the mode of the caller
+   (the first event of the section is the invocation record of the sub-rule carrying A = false) *)
+Theorem C04_section_entry_mode :
+  forall G C f n self h r1 d c o c' evs, (h = HAt \/ h = HNotAt \/ h = HDisable) ->
+    eval_head C (eval G C f) n self h [r1] d c = Res o c' evs ->
+    evs = [] \/ exists k m p tl, evs = EEnter k r1 false m p :: tl.
+Proof.
+  intros G C f n self h r1 d c o c' evs Hh H.
+  assert (K : forall d' x, dA d' = false -> eval G C f d' r1 c = x -> forall o1 c1, x = Res o1 c1 evs ->
+                evs = [] \/ exists k m p tl, evs = EEnter k r1 false m p :: tl).
+  { intros d' x Hd Hx o1 c1 ->. destruct (eval_first G C f d' r1 c o1 c1 evs Hx) as [E | [tl E]]; [left; exact E|].
+    right. rewrite Hd in E. eauto. }
+  destruct Hh as [-> | [-> | ->]]; unfold eval_head in H; simpl in H.
+  - unfold h_at in H. destruct (eval G C f (set_A (opt_ d) false) r1 c) as [[| |e] c1 e1| |] eqn:E; simpl in H; inversion H; subst;
+    eapply (K (set_A (opt_ d) false)); eauto.
+  - unfold h_at in H. destruct (eval G C f (set_A (opt_ d) false) r1 c) as [[| |e] c1 e1| |] eqn:E; simpl in H; inversion H; subst;
+    eapply (K (set_A (opt_ d) false)); eauto.
+  - eapply (K (set_A d false)); eauto.
+Qed.
+Print Assumptions C04_section_entry_mode.
 
 (* ---------- 2. the action protocol (all heads, enable included) ---------- *)
 (* every log the engine produces is accepted by the protocol machine (ActionSpec.arun) and leaves its stack as
@@ -94,6 +115,55 @@ Theorem C04_veto :
 Proof. exact match_hpp_veto. Qed.
 Print Assumptions C04_veto.
 
+(* ---------- 5. the central statement: survivors = the reference derivation's action list ---------- *)
+(* PARTIAL (fragment): tables that denote a surface grammar over seq sor star plus opt at not_at and the char atoms
+   any one not_one range string eof success failure with (mutually recursive) named rules, every named rule
+   (the root included) being a definition of the surface grammar (action_tie: the boolean tie also checks that the
+   nodes of non-reference sub-expressions are not named nodes); configurations attaching void or bool (vetoing)
+   apply / apply0 to NAMED rules only, whose verdict depends on the byte span (action_cfg); no throwing action,
+   no match-level action, no raising failure hook.  Inside the fragment: every apply mode, rewind mode, control
+   family, initial position, fuel, input.
+   In a run that ends in success the surviving action invocations (transactional truncation of the log) are
+   exactly, in order of match completion, the action list of THE derivation of the formalism-with-actions
+   (PegA: failing alternatives and look-ahead contribute nothing, look-ahead is evaluated with actions off, a
+   vetoing action turns its rule into failure), rule by rule with the exact begin / end byte of every match,
+   and the run consumed exactly what that derivation consumes.
+   The unrestricted statement (all heads: until, rep*, must, try_catch, state, action<>, enable/disable, inline
+   actions, match-level actions, anonymous rules with actions) is NOT proved here; those are covered by the
+   protocol-level theorems 1-4 above, which hold for every table and configuration. *)
+Theorem C04_survivors_exact_partial :
+  forall G g names C fam vt n, table_wf G -> action_cfg G names C fam vt -> action_tie G g names n = true ->
+  forall k, (k < length g)%nat -> forall f d input p0 c' evs, dAct d = fam -> bytes_ok input ->
+    run G C f d (nm_of G names k) input p0 = Res Ok c' evs ->
+    exists l, PegA g (att G names C fam) vt (dA d) (SRef k) input (pbyte p0) (Some (rest c', pbyte (cpos c'), l)) /\
+              map sact_bytes (survivors evs) = map (lab G names) l.
+Proof. exact survivors_exact. Qed.
+Print Assumptions C04_survivors_exact_partial.
+
+(* the same for every invocation inside a run, including failing ones: a failing invocation contributes nothing *)
+Theorem C04_invocation_exact_partial :
+  forall G g names C fam vt, table_wf G -> action_cfg G names C fam vt ->
+  (forall k e, nth_error g k = Some e -> not_ref e = true /\
+      exists n nd, nth_error G (nm_of G names k) = Some nd /\ den_node (adenb G g names n) nd e = true) ->
+  forall f n d r e c o c' evs, dAct d = fam -> adenb G g names n r e = true -> bytes_ok (rest c) ->
+    eval G C f d r c = Res o c' evs -> conclA G g names C fam vt (dA d) e c o c' evs.
+Proof.
+  intros G g names C fam vt HG [H1 [H2 [H3 [H4 [H5 H6]]]]] Hdefs.
+  exact (exact_soundA G g names C fam vt HG H1 H2 H3 H4 H5 H6 Hdefs).
+Qed.
+Print Assumptions C04_invocation_exact_partial.
+
+(* the reference derivation is unique, and the executable reference interpreter (mirrored in Python by the check's
+   oracle) computes it *)
+Theorem C04_reference_deterministic :
+  forall g att vt A e s o r1 r2, PegA g att vt A e s o r1 -> PegA g att vt A e s o r2 -> r1 = r2.
+Proof. intros g att vt A e s o r1 r2 H1 H2. exact (PegA_deterministic g att vt A e s o r1 H1 r2 H2). Qed.
+Print Assumptions C04_reference_deterministic.
+Theorem C04_reference_executable :
+  forall g att vt n A e s o r, peg_acts g att vt n A e s o = Some r -> PegA g att vt A e s o r.
+Proof. exact peg_acts_sound. Qed.
+Print Assumptions C04_reference_executable.
+
 (* ---------- examples (non-vacuity) ---------- *)
 (* struct N0 : seq< one<'a'>, opt< one<'b'> > >;  struct G : seq< at< N0 >, N0, disable< N0 >, enable< N0 > > *)
 Definition ex_G : grammar :=
@@ -150,3 +220,42 @@ Proof.
   simpl. intros [H|[H|[H|[H|[H|H]]]]]; try discriminate H; exact H.
 Qed.
 Print Assumptions C04_example_veto.
+
+(* the central statement on a concrete table:  struct N0 : seq< one<'a'>, opt< one<'b'> > >;
+   struct G : seq< at< N0 >, star< N0 > >;  bool apply on the named rules G (node 0) and N0 (node 3); the action of
+   N0 vetoes the match [2,4).  Input "ababa": at< N0 > matches with actions off (no veto there), N0 matches [0,2),
+   the second N0 [2,4) is vetoed after its action ran, star<> stops at 2: survivors N0[0,2) then G[0,2). *)
+Definition sx_G : grammar :=
+  [ mknode HSeq [1; 2]%nat true; mknode HAt [3]%nat false; mknode HStarPartial [3]%nat true;
+    mknode HSeq [4; 5]%nat true; mknode (HOne true PkChar [97%Z]) [] true; mknode HPartial [6]%nat true;
+    mknode (HOne true PkChar [98%Z]) [] true ].
+Definition sx_g : sgrammar := [ SSeq (SAt (SRef 1)) (SStar (SRef 1)); SSeq (SOne [97%N]) (SOpt (SOne [98%N])) ].
+Definition sx_names : list rid := [0; 3]%nat.
+Definition sx_vtf (r : rid) (b e : N) : bool := Nat.eqb r 3 && N.eqb b 2 && N.eqb e 4.
+Definition sx_C : cfg :=
+  mkcfg EolLfCrlf (fun _ r => if existsb (Nat.eqb r) sx_names then AKApply true else AKNone)
+        (fun _ r b e => ARet (negb (sx_vtf r (pbyte b) (pbyte e)))) (fun _ _ _ => ARet true) (fun _ => true) (fun _ _ => false).
+Definition sx_vt (k : nat) : N -> N -> bool := sx_vtf (nm_of sx_G sx_names k).
+Example C04_example_survivors :
+  table_wf sx_G /\ action_cfg sx_G sx_names sx_C 0 sx_vt /\ action_tie sx_G sx_g sx_names 6 = true /\
+  exists c' evs, run sx_G sx_C 30 (mkdyn true true 0 0 0) 0%nat [97; 98; 97; 98; 97]%N pos0 = Res Ok c' evs /\
+    rest c' = [97; 98; 97]%N /\
+    survivors evs = [ (3%nat, true, mkpos 0 1 1, mkpos 2 1 3); (0%nat, true, mkpos 0 1 1, mkpos 2 1 3) ] /\
+    In (EApply 0 3 (mkpos 2 1 3) (mkpos 4 1 5)) evs /\
+    peg_acts sx_g (att sx_G sx_names sx_C 0) sx_vt 30 true (SRef 0) [97; 98; 97; 98; 97]%N 0
+      = Some (Some ([97; 98; 97]%N, 2%N, [ (1%nat, true, 0%N, 2%N); (0%nat, true, 0%N, 2%N) ])).
+Proof.
+  split.
+  { intros r nd H. do 7 (destruct r as [|r]; [simpl in H; inversion H; subst; exact I|]). destruct r; discriminate. }
+  split.
+  { split; [intros f r; change (plain_ak (if existsb (Nat.eqb r) sx_names then AKApply true else AKNone)); destruct (existsb (Nat.eqb r) sx_names); exact I|].
+    split; [intros; eexists; reflexivity|]. split; [intros; reflexivity|].
+    split; [intros f r Ha; unfold anon in Ha; change (acts sx_C f r) with (if existsb (Nat.eqb r) sx_names then AKApply true else AKNone); destruct (existsb (Nat.eqb r) sx_names); [discriminate Ha | reflexivity]|].
+    split; [|intros; reflexivity].
+    intros f r nd Ha Hn. do 7 (destruct r as [|r]; [simpl in Hn; inversion Hn; subst; try reflexivity; exfalso; apply Ha; reflexivity|]).
+    destruct r; discriminate. }
+  split; [vm_compute; reflexivity|].
+  eexists. eexists. split; [vm_compute; reflexivity|]. split; [reflexivity|]. split; [vm_compute; reflexivity|].
+  split; [vm_compute; tauto | vm_compute; reflexivity].
+Qed.
+Print Assumptions C04_example_survivors.
